@@ -228,7 +228,7 @@ func checkC02(p *Prog, r *Report) {
 	{
 		bt := a.buildTarget
 		n := 0
-		for _, ci := range callsInFn(bt, a.storeInCache) {
+		for _, ci := range callsInFnS(bt, a.storeInCache) {
 			n++
 			mv := dominatedByCall(ci, a.moveOutputs)
 			cv := dominatedByCall(ci, a.calc)
@@ -758,14 +758,17 @@ func checkC35(p *Prog, r *Report) {
 			okk := false
 			if errBlockFirst != nil {
 				stopAssume := map[ssa.Value]bool{}
-				eachInstr(B, false, func(_ *ssa.Function, i ssa.Instruction) {
+				eachInstrS(B, func(_ *ssa.Function, i ssa.Instruction) {
 					if iff, ok := i.(*ssa.If); ok {
 						if cc, ok := iff.Cond.(*ssa.Call); ok && isCallTo(cc, "errors.Is") {
 							stopAssume[cc] = false
 						}
 					}
 				})
-				okk = !existsPathAssuming(B, errBlockFirst, nil, func(j ssa.Instruction) bool { return callsFn(j, a.removeOutputs) }, stopAssume)
+				summaryAssume = stopAssume
+				removes := func(j ssa.Instruction) bool { return callsFn(j, a.removeOutputs) }
+				okk = withCallSummaries(B, removes)(errBlockFirst) || !existsPathAssuming(B, errBlockFirst, nil, removes, stopAssume)
+				summaryAssume = nil
 			}
 			r.check(okk, rule, "buildTarget error => RemoveOutputs", p.pos(c.Pos()), fnName(B), "every path from the error edge (other than errStop) to return passes RemoveOutputs", "a failed build (including a hash mismatch) can leave its outputs in plz-out")
 		}
